@@ -102,6 +102,15 @@ func genBotReal(rng *Rng, workdir string, stress bool) (s *engSession) {
 		// passport = band (two digits) + index within the band, as TravellerBots.getPassport builds it
 		s.addTraveller(fmt.Sprintf("%02d%07d", i, rng.Intn(10000000)))
 	}
+	{
+		// the population in the journey planner's order (passport numbers ascending): Run/RunSim.v replays the
+		// history a second time through Model/Sim.v
+		var ks []string
+		for _, t := range s.trav {
+			ks = append(ks, t.key)
+		}
+		s.coq = append(s.coq, "EBots ["+strings.Join(ks, "; ")+"]")
+	}
 	flyProb := []float64{0.05, 0.2, 0.5, 0.9}[rng.Intn(4)]
 	if stress {
 		flyProb = []float64{0.5, 0.7, 0.9}[rng.Intn(3)]
@@ -306,6 +315,7 @@ func genBotReal(rng *Rng, workdir string, stress bool) (s *engSession) {
 		}
 		day++
 	}
+	s.coq = append(s.coq, "EBots []") // end of the simulated days (Run/RunSim.v): the closing update comes without check-ins
 	s.update(day * 86400)
 	return s
 }
